@@ -1,7 +1,7 @@
-(* C11 — mutating any file the library agreed to open never panics or hangs.  Statements are printed by Check below and compared with C11.expected; proofs in proofs/WalkSafe.v, proofs/WalkProofs.v, proofs/OpenTotal.v.  The invariant is NOT injectivity of the FAT (mutation of a damaged file can give a cell two predecessors) but Safe = (every walk terminates: no edge enters a cycle from outside) + (the free list has no duplicates and names only FREE cells); it holds after open of ANY accepted byte string, is preserved by EVERY allocator / chain / mini-chain operation in EVERY outcome (Ok or error half-way), and implies that every checked walk terminates without panicking.  PARTIAL: preservation through the directory-level and API-level operations that sit above (insert / remove entry, store migrations) is proved only for their chain-level parts; absence of Panic in those layers on accepted-but-inconsistent files is checked by the mutation enumeration on the real crate with the model replaying every case. *)
+(* C11 — mutating any file the library agreed to open never panics or hangs.  Statements are printed by Check below and compared with C11.expected; proofs in proofs/WalkSafe.v, proofs/WalkProofs.v, proofs/OpenTotal.v.  The invariant is NOT injectivity of the FAT (mutation of a damaged file can give a cell two predecessors) but Safe = (every walk terminates: no edge enters a cycle from outside) + (the free list has no duplicates and names only FREE cells); it holds after open of ANY accepted byte string, is preserved by EVERY allocator / chain / mini-chain operation in EVERY outcome (Ok or error half-way), and implies that every checked walk terminates without panicking.  THE PROPERTY FOR THE MODEL (proofs/MutTotal.v): an invariant MInv (the safety invariant + root entry typed + names within 31 units + the directory a forest + MiniFAT free list in range) holds after open of ANY accepted byte string in either mode and of the created file; every API call - all creations, removals, metadata setters, queries, read_to_end, reopen, and every handle operation including handles that are stale (stream removed, overwritten or resized behind them) - returns Ok or an error and re-establishes the invariant IN EVERY OUTCOME; hence every sequence of calls (BufRead::consume within the buffer being the only precondition) yields only Ok / Err results, with ONE exception: model site 303 (append_fat_sector indexing difat_sector_ids after 128 failed allocations on a file whose FAT does not cover it; scenario S303, not replayed on the crate), and under the guard Bound (tables below 2^32-5 entries; the model has no u32 wrap-around).  The proof attempts produced the scenarios S705 / S705b / S305 / SREMOVE / S503 / S403, each replayed on the crate and repaired; the examples pin their values after the repairs. *)
 From Cfb.model Require Import Base Names DirEnt State Alloc Dir Mini Store Handle Open Cfb.
 From Cfb.gen Require Import Consts.
-From Cfb.proofs Require Import WalkProofs OpenTotal WalkSafe.
+From Cfb.proofs Require Import WalkProofs OpenTotal WalkSafe ReadonlyTotal MutTotal.
 Set Printing Width 110.
 
 (* what permissive (or strict) open establishes for any byte string it accepts *)
@@ -81,3 +81,87 @@ Theorem C11_the_free_list_condition_is_needed : ltac:(let t := type of extend_ch
 Proof. exact extend_chain_needs_freeinv. Qed.
 Check C11_the_free_list_condition_is_needed.
 Print Assumptions C11_the_free_list_condition_is_needed.
+
+(* for any byte string either mode accepts *)
+Theorem C11_open_establishes_the_mutation_invariant : ltac:(let t := type of open_MInv in exact t).
+Proof. exact open_MInv. Qed.
+Check C11_open_establishes_the_mutation_invariant.
+Print Assumptions C11_open_establishes_the_mutation_invariant.
+
+(* V3 and V4 *)
+Theorem C11_created_file_satisfies_the_invariant : ltac:(let t := type of create_MInv in exact t).
+Proof. exact create_MInv. Qed.
+Check C11_created_file_satisfies_the_invariant.
+Print Assumptions C11_created_file_satisfies_the_invariant.
+
+(* one API call of any kind: the invariant (with the forest) holds afterwards in EVERY outcome, and the result is Ok, Err or a panic at the one listed site *)
+Theorem C11_every_call_is_total_and_keeps_the_invariant : ltac:(let t := type of step_total in exact t).
+Proof. exact step_total. Qed.
+Check C11_every_call_is_total_and_keeps_the_invariant.
+Print Assumptions C11_every_call_is_total_and_keeps_the_invariant.
+
+(* by induction over the call sequence *)
+Theorem C11_every_call_sequence_is_total : ltac:(let t := type of run_total in exact t).
+Proof. exact run_total. Qed.
+Check C11_every_call_sequence_is_total.
+Print Assumptions C11_every_call_sequence_is_total.
+
+(* THE PROPERTY for the model: after open of any accepted byte string, every call sequence yields only Ok / Err (or the S303 site) *)
+Theorem C11_mutating_any_opened_file_never_panics_or_hangs : ltac:(let t := type of mutating_total_partial in exact t).
+Proof. exact mutating_total_partial. Qed.
+Check C11_mutating_any_opened_file_never_panics_or_hangs.
+Print Assumptions C11_mutating_any_opened_file_never_panics_or_hangs.
+
+(* if no result is a panic at site 303, all results are Ok or Err *)
+Theorem C11_and_without_the_listed_site_only_ok_or_err : ltac:(let t := type of mutating_total in exact t).
+Proof. exact mutating_total. Qed.
+Check C11_and_without_the_listed_site_only_ok_or_err.
+Print Assumptions C11_and_without_the_listed_site_only_ok_or_err.
+
+(* V3 and V4 *)
+Theorem C11_the_same_from_a_created_file : ltac:(let t := type of mutating_total_created in exact t).
+Proof. exact mutating_total_created. Qed.
+Check C11_the_same_from_a_created_file.
+Print Assumptions C11_the_same_from_a_created_file.
+
+(* two handles, the other one shortens the stream: all calls return (was Panic 705 before 218a438) *)
+Theorem C11_scenario_two_handles_old_route : ltac:(let t := type of Scenarios.S705 in exact t).
+Proof. exact Scenarios.S705. Qed.
+Check C11_scenario_two_handles_old_route.
+Print Assumptions C11_scenario_two_handles_old_route.
+
+(* a clean stale handle reads after the other one grew the stream: all calls return (was Panic 705 before 8eb23df) *)
+Theorem C11_scenario_two_handles_stale_reader : ltac:(let t := type of Scenarios.S705b in exact t).
+Proof. exact Scenarios.S705b. Qed.
+Check C11_scenario_two_handles_stale_reader.
+Print Assumptions C11_scenario_two_handles_stale_reader.
+
+(* set_len(u64::MAX) is refused (was Panic 305 before 88cc1a1) *)
+Theorem C11_scenario_set_len_max : ltac:(let t := type of Scenarios.S305 in exact t).
+Proof. exact Scenarios.S305. Qed.
+Check C11_scenario_set_len_max.
+Print Assumptions C11_scenario_set_len_max.
+
+(* cross-linked directory chain: the removals fail, the lookup returns (ran out of fuel before b2314e1) *)
+Theorem C11_scenario_failed_removals : ltac:(let t := type of Scenarios.SREMOVE in exact t).
+Proof. exact Scenarios.SREMOVE. Qed.
+Check C11_scenario_failed_removals.
+Print Assumptions C11_scenario_failed_removals.
+
+(* cross-linked MiniFAT chain: error (was Panic 503 before e13b099) *)
+Theorem C11_scenario_cut_minifat_chain : ltac:(let t := type of Scenarios.S503 in exact t).
+Proof. exact Scenarios.S503. Qed.
+Check C11_scenario_cut_minifat_chain.
+Print Assumptions C11_scenario_cut_minifat_chain.
+
+(* cross-linked directory chain: error (was Panic 403 before e13b099) *)
+Theorem C11_scenario_cut_directory_chain : ltac:(let t := type of Scenarios.S403 in exact t).
+Proof. exact Scenarios.S403. Qed.
+Check C11_scenario_cut_directory_chain.
+Print Assumptions C11_scenario_cut_directory_chain.
+
+(* the one site still reachable in the model: 127 failed allocations, then Panic 303 *)
+Theorem C11_scenario_remaining_site : ltac:(let t := type of Scenarios.S303 in exact t).
+Proof. exact Scenarios.S303. Qed.
+Check C11_scenario_remaining_site.
+Print Assumptions C11_scenario_remaining_site.
